@@ -7,7 +7,7 @@ with the specified outcome; the harness materialises every case (header + empty 
 the counting allocator and compares accept / reject, the reported requested and max values and the largest allocation
 made before a rejection.
 """
-import json, os
+import json, os, shutil
 from ..common import *
 
 
@@ -15,19 +15,31 @@ def check(ctx):
     build_harness()
     q = ctx.quick
     descs = sorted(set([0, 1, 7, 8, 9, 63, 64, 100, 128, 135, 136, 137, 138, 144, 200, 247, 248, 253, 254, 255])) if q else list(range(256))
-    cfg = ctx.path("MC_WindowLimit.cfg")
     fronts = ["reset", "init", "decode_all", "from_to", "stream_new", "stream_new_limit", "stream_with_decoder"]
-    write_cfg(cfg, constants={"Descs": tla_set(descs), "Histories": '{"first", "after_ok", "after_fail"}',
-                              "Fronts": "{" + ", ".join('"%s"' % f for f in fronts) + "}"})
-    # TLC writes window_cases.ndjson into its working directory: run it from a copy of the module in the out dir
+    # TLC writes window_cases.ndjson into its working directory: run it from a copy of the module in the out dir;
+    # the descriptors are enumerated in chunks (one TLC run each) so that the case sets stay small
     mod = ctx.path("MC_WindowLimit.tla")
     with open(mod, "w") as f:
         f.write("---- MODULE MC_WindowLimit ----\nEXTENDS WindowLimit\n====\n")
-    res = tlc(ctx, mod, cfg, workers=1, name="MC_WindowLimit", heap="-Xmx8g", timeout=3000)
-    tlc_must_pass(ctx, res, "WindowLimit")
-    cases = ctx.path("window_cases.ndjson")
-    if not os.path.exists(cases):
-        raise ToolError("WindowLimit wrote no cases")
+    cases = ctx.path("window_cases_all.ndjson")
+    open(cases, "w").close()
+    chunk = 24
+    class R: distinct = 0; generated = 0
+    res = R()
+    for k in range(0, len(descs), chunk):
+        cfg = ctx.path("MC_WindowLimit_%d.cfg" % k)
+        write_cfg(cfg, constants={"Descs": tla_set(descs[k:k + chunk]), "Histories": '{"first", "after_ok", "after_fail"}',
+                                  "Fronts": "{" + ", ".join('"%s"' % f for f in fronts) + "}"})
+        r1 = tlc(ctx, mod, cfg, workers=1, name="MC_WindowLimit_%d" % k, heap="-Xmx8g", timeout=3000)
+        tlc_must_pass(ctx, r1, "WindowLimit")
+        part = ctx.path("window_cases.ndjson")
+        if not os.path.exists(part):
+            raise ToolError("WindowLimit wrote no cases")
+        with open(cases, "a") as out, open(part) as inp:
+            shutil.copyfileobj(inp, out)
+        os.remove(part)
+        res.distinct += max(r1.distinct, 1)
+        res.generated += max(r1.generated, 1)
     rep = ctx.path("c11exec.json")
     vh(ctx, ["c11exec", cases, rep], timeout=3000)
     rj = json.load(open(rep))
